@@ -78,6 +78,7 @@ class LSym:
         self.allow_symbolic_branch = None  # callback(fn, cond) -> bool or None
         self.trace = None
         self.heap = []
+        self.panic_edges_closed = 0   # branches into panic blocks decided infeasible by interval arithmetic alone
         self.events = []          # ('branch', fn, cond) / ('addr', ...) records for relational checks
         self.record_events = False
 
@@ -742,7 +743,11 @@ class LSym:
                     c = self.to_cond(self.opval(env, ins[2], "i1"))
                     r = self.eval_cond(c)
                     if self.record_events: self.events.append(("branch", fn.name, lab, c))
-                    if r is not None: nxt = ins[3] if r else ins[4]; break
+                    if r is not None:
+                        nxt = ins[3] if r else ins[4]
+                        if doomed is None: doomed = self.doomed(fn)
+                        if (ins[4] if r else ins[3]) in doomed and nxt not in doomed: self.panic_edges_closed += 1
+                        break
                     if doomed is None: doomed = self.doomed(fn)
                     t_d, f_d = ins[3] in doomed, ins[4] in doomed
                     if t_d and not f_d:
